@@ -17,6 +17,8 @@ EXTRA = [
     ('property', 'after (a as A or b or c {x > 0}) until (d or e): some (f {y = 1} or g or h)'),
     ('expression', 'x = NAN'), ('expression', 'x < INF'), ('expression', '-INF < x'), ('expression', 'x * PI + E'),
     ('expression', 'a.b.c[1].d[i + 1][2] = @v.w[0]'), ('expression', 'a[b[c[0]]] > 0'),
+    ('expression', 'x < 1e999'), ('expression', 'x in [-1e999 to 2E308]'), ('expression', 'x = 1.8e308 or x < 1e998'), ('expression', 'x > 1e-999'),
+    ('expression', 'x < 1e999 and y < INF'), ('property', 'globally: no a {x > 1e400} within 1e999 s'),
     ('expression', 'g[0][1].v > 0'), ('expression', 'g[1][2][3].v.w[4][5].z = @A.m[i][j + 1].n'), ('expression', 'g[0][1][0].v[2][3] < g[1][0].v'),
     ('expression', 'x in {1, 2.5, -3}'), ('expression', 'x in ![1 to y]!'), ('expression', 's = "a b"'),
     ('expression', 's = "a \\"q\\" b"'), ('expression', 'not (a or b) implies (c iff d)'),
